@@ -1,11 +1,14 @@
 """Line-level delta debugging for multi-file programs: keep removing lines while pred(files) holds."""
-def ddmin(files, fs, pred, max_rounds=6):
+def ddmin(files, fs, pred, max_rounds=6, budget_s=90):
+    """budget_s: wall-clock limit; shrinking is a convenience for the replay, the unshrunk input is as valid."""
+    import time
+    t_end = time.time() + budget_s
     files = [(fn, t.split("\n")) for fn, t in files]
     def build(fl):
         return [(fn, "\n".join(ls)) for fn, ls in fl]
     changed = True
     rounds = 0
-    while changed and rounds < max_rounds:
+    while changed and rounds < max_rounds and time.time() < t_end:
         changed = False
         rounds += 1
         for fi in range(len(files)):
@@ -14,7 +17,7 @@ def ddmin(files, fs, pred, max_rounds=6):
             chunk = max(1, len(ls) // 2)
             while chunk >= 1:
                 i = 0
-                while i < len(ls):
+                while i < len(ls) and time.time() < t_end:
                     cand = ls[:i] + ls[i + chunk:]
                     trial = files[:fi] + [(fn, cand)] + files[fi + 1:]
                     if pred(build(trial), fs):
